@@ -155,10 +155,22 @@ def sh(cmd, cwd=None, timeout=3600):
 
 
 def lean_build(clean=False):
-    if clean:
-        shutil.rmtree(os.path.join(LEAN, '.lake', 'build'), ignore_errors=True)
-    code, out = sh(['lake', 'build'], cwd=LEAN)
-    return code == 0, out
+    """`lake build`, serialised across concurrently running checks by a file lock (two lake processes building
+    the same package at once can fail spuriously); one retry for the same reason"""
+    import fcntl
+    lock = open(os.path.join(LEAN, '.build.lock'), 'w')
+    try:
+        fcntl.flock(lock, fcntl.LOCK_EX)
+        if clean:
+            shutil.rmtree(os.path.join(LEAN, '.lake', 'build'), ignore_errors=True)
+        code, out = sh(['lake', 'build'], cwd=LEAN)
+        if code != 0:
+            time.sleep(2)
+            code, out = sh(['lake', 'build'], cwd=LEAN)
+        return code == 0, out
+    finally:
+        fcntl.flock(lock, fcntl.LOCK_UN)
+        lock.close()
 
 
 def strip_comments(src):
